@@ -59,7 +59,8 @@ ASSUMPTIONS = [
     "the model's attribute records do not distinguish a missing dictionary key from a key holding None (get_rc writes "
     "standard_order=None for an H-H bond that had no standard_order): core + explicit_hydrogen exports of hand-made ITS graphs "
     "with such a bond are outside the model's domain and are seen by the oracle only (counted under outside_model_domain)",
-    "labels, element symbols: ASCII; node ids: non-negative ints; hcount/charge/atom_map: ints; bond orders: half-integers",
+    "labels, element symbols: ASCII; node ids: non-negative ints; hcount/charge/atom_map: ints; bond orders: half-integers (Python's \\d and "
+    "int() also accept non-ASCII decimal digits, the model's is_digit is ASCII: unreachable through the writer, whose charge strings are ASCII)",
     "domain of C10_gml_roundtrip(_reindex) / C10_two_routes_centre(_reindex) = its_ok: unique ids, one entry per bond, typesGH present with "
     "the same element (a symbol in [A-Za-z*]+) in both halves, element/charge attributes = reactant half, (before, after) orders from "
     "{absent, 1, 1.5, 2, 3} not both absent, standard_order = before - after (what ITSGraph / get_rc produce; 99% of the exported graphs "
@@ -81,7 +82,11 @@ TESTED_NOT_PROVED = [
     "(graph-level statements are proved: C10_h_total_*, C10_h_explicit_skeleton, C10_h_implicit_skeleton, C10_h_roundtrip)",
     "GML text rendering and the line tokenisation of GMLToNX.transform (glue): correspondence only, through an independent tokenizer",
     "smart_to_gml's RDKit half (rsmi_to_graph): the adapter feeds its output to the model",
-    "core=False (full) exports on ITS graphs outside its_ok: correspondence + oracle only",
+    "exports of ITS graphs outside its_ok: correspondence, and the oracle (atoms, elements, both charges, (before, after) orders) whenever the "
+    "graph is outside its_ok only because standard_order is not before - after (which the property text does not mention) and the export "
+    "is without explicit_hydrogen (with it the writer itself reads standard_order); graphs whose "
+    "node attributes disagree with typesGH or whose orders the label alphabet cannot carry: correspondence only (counted as "
+    "its_outside_oracle_domain in the evidence distribution)",
     "graph_to_rsmi / its_to_rsmi / gml_to_smart: modelled up to the two RWMol handed to RDKit (observed on the real call by a spy on "
     "graph_to_smi / GraphToMol.graph_to_mol); what RDKit writes from them is not modelled",
 ]
@@ -1560,7 +1565,9 @@ def _its_struct(I):
     return nodes, edges
 
 
-def _is_wellformed_its(I):
+def _is_wellformed_its(I, std=True):
+    """std=False: what the property's clause needs (atoms with one element and two charges, (before, after) orders the label
+    alphabet carries) without requiring standard_order = before - after, which the property text does not mention"""
     for n, d in I.nodes(data=True):
         t = d.get("typesGH")
         if not t or len(t) != 2 or t[0][0] != t[1][0] or not isinstance(t[0][0], str) or not _ELEM_RE.match(t[0][0]):
@@ -1571,7 +1578,7 @@ def _is_wellformed_its(I):
         o = d.get("order")
         if not isinstance(o, tuple) or len(o) != 2 or any(x not in (0, 1, 1.5, 2, 3) for x in o) or o == (0, 0) or u == v:
             return False
-        if d.get("standard_order") != o[0] - o[1]:
+        if std and d.get("standard_order") != o[0] - o[1]:
             return False
     return True
 
@@ -1581,11 +1588,14 @@ def _oracle_its_graph(I, cfgs, tag):
     from synkit.IO.chem_converter import its_to_gml, gml_to_its
     from synkit.Graph.ITS.its_decompose import get_rc
     fails = []
-    if not _is_wellformed_its(I):
-        return fails
+    if not _is_wellformed_its(I, std=False):
+        return fails        # counted under its_outside_oracle_domain in the evidence distribution
     rc = get_rc(I)
     is_centre = set(rc.nodes) == set(I.nodes) and rc.number_of_edges() == I.number_of_edges()
+    strict = _is_wellformed_its(I)
     for core, reindex, eh in cfgs:
+        if eh and not strict:
+            continue        # with explicit_hydrogen the writer itself reads standard_order (context bonds): inconsistent input, no claim
         text = its_to_gml(I.copy(), core=core, reindex=reindex, explicit_hydrogen=eh)
         rec = text_to_rec(text)
         if rec is None:
@@ -1819,6 +1829,15 @@ def distribution(cases, obss):
                         nb[v] += 1
                 if any(x == 0 for x in nb.values()):
                     d["bare_H_graphs"] += 1
+        if k == "its":
+            try:
+                Ij = to_nx(c["its"])
+                kk = "its_judged_by_oracle" if _is_wellformed_its(Ij, std=False) else "its_outside_oracle_domain"
+                d[kk] = d.get(kk, 0) + 1
+                if kk == "its_judged_by_oracle" and not _is_wellformed_its(Ij):
+                    d["its_judged_outside_its_ok"] = d.get("its_judged_outside_its_ok", 0) + 1
+            except Exception:
+                pass
         if k == "its" and c.get("rule_name") is not None and isinstance(o, list) and len(o) == 2:
             o = o[0]
         if k == "smart" and c.get("of") and c.get("sanitize", True):
